@@ -20,6 +20,7 @@ import (
 	"github.com/AdguardTeam/AdGuardHome/internal/vutil"
 	"github.com/AdguardTeam/golibs/logutil/slogutil"
 	"github.com/AdguardTeam/golibs/timeutil"
+	"gopkg.in/yaml.v3"
 )
 
 // ---------------------------------------------------------------- implementation side
@@ -68,6 +69,104 @@ type c04Probe struct {
 // c04Services are real blocked-service ids; the index is what travels on the
 // line (0 is the global list's).
 var c04Services = []string{"4chan", "500px", "9gag", "amazon", "aliexpress", "amino", "activision_blizzard", "amazon_streaming"}
+
+// c04Upstreams are the values of Persistent.Upstreams; the index travels.
+var c04Upstreams = [][]string{nil, {"1.1.1.1"}, {"[/example.org/]8.8.8.8", "9.9.9.9"}}
+
+func c04UpstreamsNum(ups []string) string {
+	j := strings.Join(ups, ",")
+	for i, u := range c04Upstreams {
+		if strings.Join(u, ",") == j {
+			return vutil.Itoa(i)
+		}
+	}
+
+	return "?" + vutil.Hex(j)
+}
+
+// c04Sched returns schedule number n: 0 the empty local one, 1 an empty one in
+// UTC (never contains a moment, so the services always apply).
+func c04Sched(n int) (w *schedule.Weekly) {
+	if n == 0 {
+		return schedule.EmptyWeekly()
+	}
+	w = &schedule.Weekly{}
+	if err := yaml.Unmarshal([]byte("time_zone: UTC\n"), w); err != nil {
+		panic(err)
+	}
+
+	return w
+}
+
+func c04SchedNum(w *schedule.Weekly) string {
+	if w == nil {
+		return "nil"
+	}
+	b, err := yaml.Marshal(w)
+	if err != nil {
+		return "?"
+	}
+	switch {
+	case strings.Contains(string(b), "time_zone: Local"):
+		return "0"
+	case strings.Contains(string(b), "time_zone: UTC"):
+		return "1"
+	default:
+		return "?" + vutil.Hex(string(b))
+	}
+}
+
+// c04SSConf decodes the per-engine switches of a safe-search config.
+func c04SSConf(enabled bool, n int) filtering.SafeSearchConfig {
+	return filtering.SafeSearchConfig{
+		Enabled: enabled, Bing: n&1 != 0, DuckDuckGo: n&2 != 0, Ecosia: n&4 != 0, Google: n&8 != 0,
+		Pixabay: n&16 != 0, Yandex: n&32 != 0, YouTube: n&64 != 0,
+	}
+}
+
+func c04SSConfNum(c filtering.SafeSearchConfig) string {
+	n := 0
+	for i, b := range []bool{c.Bing, c.DuckDuckGo, c.Ecosia, c.Google, c.Pixabay, c.Yandex, c.YouTube} {
+		if b {
+			n |= 1 << i
+		}
+	}
+
+	return vutil.Itoa(n)
+}
+
+// c04Full prints every field of a client (the F segment of an observation).
+func c04Full(p *Persistent) string {
+	sso := "0"
+	switch v := p.SafeSearch.(type) {
+	case nil:
+	case *c04SS:
+		sso = vutil.Itoa(v.id)
+	default:
+		sso = "1"
+	}
+	svc, sched := "nil", "nil"
+	if bs := p.BlockedServices; bs != nil {
+		sched = c04SchedNum(bs.Schedule)
+		svc = "?"
+		if len(bs.IDs) == 1 {
+			svc = c04ServiceNum(bs.IDs[0])
+		}
+	}
+	bits := ""
+	for _, b := range []bool{
+		p.UseOwnSettings, p.FilteringEnabled, p.SafeSearchConf.Enabled, p.SafeBrowsingEnabled, p.ParentalEnabled,
+		p.UseOwnBlockedServices, p.IgnoreQueryLog, p.IgnoreStatistics, p.UpstreamsCacheEnabled,
+	} {
+		bits += vutil.B(b)
+	}
+
+	return strings.Join([]string{
+		fmt.Sprint(c04UIDNum(p.UID)), fmt.Sprint(p.UpstreamsCacheSize), vutil.Itoa(len(p.IPs)),
+		vutil.Itoa(len(p.Subnets)), vutil.Itoa(len(p.MACs)), vutil.Itoa(len(p.ClientIDs)), bits, svc, sso,
+		c04TagsNum(p.Tags), c04UpstreamsNum(p.Upstreams), sched, c04SSConfNum(p.SafeSearchConf),
+	}, "/")
+}
 
 func c04ServiceNum(name string) string {
 	for i, n := range c04Services {
@@ -159,12 +258,16 @@ func c04Client(f []string, i int) (p *Persistent, next int) {
 	p.SafeBrowsingEnabled = vutil.UnB(f[i+4])
 	p.ParentalEnabled = vutil.UnB(f[i+5])
 	p.UseOwnBlockedServices = vutil.UnB(f[i+6])
+	p.IgnoreQueryLog, p.IgnoreStatistics = vutil.UnB(f[i+10]), vutil.UnB(f[i+11])
+	p.Upstreams = append([]string(nil), c04Upstreams[vutil.Atoi(f[i+12])]...)
+	p.UpstreamsCacheEnabled = vutil.UnB(f[i+13])
+	p.SafeSearchConf = c04SSConf(p.SafeSearchConf.Enabled, vutil.Atoi(f[i+15]))
 	p.BlockedServices = &filtering.BlockedServices{
-		Schedule: schedule.EmptyWeekly(),
+		Schedule: c04Sched(vutil.Atoi(f[i+14])),
 		IDs:      []string{c04Services[vutil.Atoi(f[i+7])]},
 	}
 
-	return p, i + 10
+	return p, i + 16
 }
 
 // c04ClientS decodes a client whose identifiers are strings and runs the real
@@ -311,18 +414,19 @@ func c04Observe(c *c04State) (out []string) {
 			}
 		}))
 	}
-	var all []string
+	var all, full []string
 	s.RangeByName(func(p *Persistent) (cont bool) {
 		all = append(all, fmt.Sprintf("%d:%d", c04UIDNum(p.UID), p.UpstreamsCacheSize))
+		full = append(full, c04Full(p))
 
 		return true
 	})
-	allS := "-"
+	allS, fullS := "-", "-"
 	if len(all) > 0 {
-		allS = strings.Join(all, ",")
+		allS, fullS = strings.Join(all, ","), strings.Join(full, ",")
 	}
 
-	return append(out, "R", allS)
+	return append(out, "R", allS, "F", fullS)
 }
 
 func c04Run(f []string) []string {
@@ -489,6 +593,15 @@ type c04GenClient struct {
 	svc      int
 	ssObj    int
 	tags     int
+	extra    [6]int // ignoreQueryLog ignoreStatistics upstreams upstreamsCacheEnabled sched ssConf
+}
+
+func (c *c04GenClient) extraFields() (f []string) {
+	for _, x := range c.extra {
+		f = append(f, vutil.Itoa(x))
+	}
+
+	return f
 }
 
 func (c *c04GenClient) fields() (f []string) {
@@ -512,7 +625,7 @@ func (c *c04GenClient) fields() (f []string) {
 		f = append(f, vutil.B(b))
 	}
 
-	return append(f, vutil.Itoa(c.svc), vutil.Itoa(c.ssObj), vutil.Itoa(c.tags))
+	return append(append(f, vutil.Itoa(c.svc), vutil.Itoa(c.ssObj), vutil.Itoa(c.tags)), c.extraFields()...)
 }
 
 // ids returns the identifiers of kind k (0 IP, 1 subnet, 2 MAC, 3 ClientID) as keys.
@@ -797,7 +910,7 @@ func (c *c04GenClient) stringFields(r *rand.Rand) (f []string) {
 		f = append(f, vutil.B(b))
 	}
 
-	return append(f, vutil.Itoa(c.svc), vutil.Itoa(c.ssObj), vutil.Itoa(c.tags))
+	return append(append(f, vutil.Itoa(c.svc), vutil.Itoa(c.ssObj), vutil.Itoa(c.tags)), c.extraFields()...)
 }
 
 func c04Gen(r *rand.Rand, emit0 vutil.Emit) {
@@ -942,6 +1055,7 @@ func c04Gen(r *rand.Rand, emit0 vutil.Emit) {
 				c.ssObj = ver
 			}
 			c.tags = r.IntN(len(c04TagSets))
+			c.extra = [6]int{r.IntN(2), r.IntN(2), r.IntN(len(c04Upstreams)), r.IntN(2), r.IntN(2), r.IntN(128)}
 
 			return c
 		}
